@@ -98,7 +98,11 @@ class ABCARMPropertyGraph(ABCPropertyGraph):
         :return:
         """
         if prop_val is None:
-            graph.unset_node_property(node_id=node_id, prop_name=prop_name)
+            # a node may carry only one of the two delegation properties: unset only what is present
+            # (unsetting an absent property raises on the NetworkX backend)
+            _, props = graph.get_node_properties(node_id=node_id)
+            if prop_name in props:
+                graph.unset_node_property(node_id=node_id, prop_name=prop_name)
         else:
             graph.update_node_property(node_id=node_id, prop_name=prop_name,
                                        prop_val=prop_val.to_json())
